@@ -30,4 +30,15 @@ json.dump(out, open(os.path.join(HERE, "anchors.json"), "w"), indent=1, sort_key
 # were written for: state or helpers under any *other* private name have no model in the rules
 from sa.model import private_names          # noqa: E402
 json.dump(sorted(private_names(repo)), open(os.path.join(HERE, "private_names.json"), "w"), indent=0)
-print(len(out), "anchor fingerprints written")
+# the parameter lists of every function of the reference tree: a parameter a later tree adds to one
+# of them (necessarily optional, or existing calls would break) is outside the given properties -
+# existing calls leave it at its default, which is how the analysis binds it (sa/interp.py)
+sigs = {}
+for m in repo.modules.values():
+    for fi in repo.all_functions():
+        a = fi.node.args
+        sigs[fi.fq] = [x.arg for x in a.posonlyargs + a.args + a.kwonlyargs] + \
+            (["*" + a.vararg.arg] if a.vararg else []) + (["**" + a.kwarg.arg] if a.kwarg else [])
+    break
+json.dump(sigs, open(os.path.join(HERE, "signatures.json"), "w"), indent=0, sort_keys=True)
+print(len(out), "anchor fingerprints written;", len(sigs), "signatures")
